@@ -151,6 +151,7 @@ fn expn_chain(mut span: Span) -> J {
 
 struct Cx<'tcx> {
     tcx: TyCtxt<'tcx>,
+    seen_enums: std::cell::RefCell<std::collections::HashSet<DefId>>,
 }
 
 impl<'tcx> Cx<'tcx> {
@@ -548,7 +549,12 @@ impl<'tcx> Cx<'tcx> {
             .iter_enumerated()
             .map(|(l, d)| {
                 let adt = match d.ty.peel_refs().kind() {
-                    ty::Adt(def, _) => J::s(path_s(tcx, def.did())),
+                    ty::Adt(def, _) => {
+                        if def.is_enum() && !def.did().is_local() {
+                            self.seen_enums.borrow_mut().insert(def.did());
+                        }
+                        J::s(path_s(tcx, def.did()))
+                    }
                     _ => J::Null,
                 };
                 obj! {
@@ -808,7 +814,7 @@ impl<'tcx> rustc_hir::intravisit::Visitor<'tcx> for UnsafeFinder<'tcx> {
 }
 
 fn dump(tcx: TyCtxt<'_>, out_dir: &str) {
-    let cx = Cx { tcx };
+    let cx = Cx { tcx, seen_enums: Default::default() };
     let crate_name = tcx.crate_name(LOCAL_CRATE).to_string();
     let pkg = std::env::var("CARGO_PKG_NAME").unwrap_or_default();
     let crate_types: Vec<String> = tcx.crate_types().iter().map(|t| format!("{t:?}")).collect();
@@ -1041,7 +1047,31 @@ fn dump(tcx: TyCtxt<'_>, out_dir: &str) {
     tcx.hir_visit_all_item_likes_in_crate(&mut finder);
     unsafe_items.extend(finder.found);
 
+    let mut foreign_enums = Vec::new();
+    let mut seen: Vec<DefId> = cx.seen_enums.borrow().iter().copied().collect();
+    seen.sort_by_key(|d| tcx.def_path_str(*d));
+    for did in seen.iter() {
+        let def = tcx.adt_def(*did);
+        if def.variants().len() > 64 {
+            continue;
+        }
+        let variants: Vec<J> = def
+            .variants()
+            .iter()
+            .map(|v| obj! { "name": J::s(v.name.to_string()), "fields": J::Arr(v.fields.iter().map(|f| obj! { "name": J::s(f.name.to_string()), "ty": J::s(""), "vis": J::s("") }).collect()), "ctor": J::s("") })
+            .collect();
+        let discrs: Vec<J> = def.discriminants(tcx).map(|(_, d)| J::Int(d.val as i128)).collect();
+        foreign_enums.push(obj! {
+            "id": J::s(path_s(tcx, *did)),
+            "kind": J::s("Enum"),
+            "foreign": J::Bool(true),
+            "variants": J::Arr(variants),
+            "discrs": J::Arr(discrs),
+        });
+    }
+
     let root = obj! {
+        "foreign_enums": J::Arr(foreign_enums),
         "crate": J::s(crate_name.clone()),
         "prefix": J::s(prefix.clone()),
         "pkg": J::s(pkg.clone()),
